@@ -2,6 +2,7 @@ package main
 
 import (
 	"fmt"
+	"go/token"
 	"go/types"
 
 	"golang.org/x/tools/go/ssa"
@@ -158,6 +159,7 @@ func (fx *FuncCtx) selectModel(st *State, in *ssa.Select) {
 					s.assume(implies(not(closed), ok))
 					fx.heapSet(s, chLen, sx("store", fx.heapGet(s.heap, chLen), ch, ite(sx(">", l, "0"), sx("-", l, "1"), l)))
 					fx.chanLogRecv(s, ch, sc.Chan.Type().Underlying().(*types.Chan).Elem(), v, ok)
+					fx.timerRecv(s, ch, false, in.Pos())
 				}
 				res.Tup = append(res.Tup, v)
 				ri++
@@ -305,9 +307,24 @@ func (fx *FuncCtx) sendModel(st *State, in *ssa.Send) {
 	fx.chanLogSend(st, ch, in.Chan.Type().Underlying().(*types.Chan).Elem(), fx.val(st, in.X))
 }
 
+// timer ghost state (standard-library contracts: tmState[channel] = 0 idle, 1 armed, 2 holds an unreceived tick)
+func (fx *FuncCtx) timerRecv(st *State, ch string, blocking bool, pos token.Pos) {
+	if !fx.timerChans[ch] {
+		return
+	}
+	k := HeapKey{"GG$tmState", "(Array Int Int)"}
+	cur := fx.heapGet(st.heap, k)
+	if blocking {
+		fx.oblige(st, "safe", "timerwait", not(eq(sx("select", cur, ch), "0")), pos, "receive from the channel of a timer that is neither armed nor holds a tick (blocks forever)")
+	}
+	st.assume(not(eq(sx("select", cur, ch), "0")))
+	fx.heapSet(st, k, sx("store", cur, ch, "0"))
+}
+
 func (fx *FuncCtx) recvModel(st *State, in *ssa.UnOp, chv Val) {
 	fx.chanEnvStep(st)
 	ch := chv.s()
+	fx.timerRecv(st, ch, true, in.Pos())
 	et := chv.T.Underlying().(*types.Chan).Elem()
 	v := fx.freshVal("recv", et)
 	fx.assumeTyping(st, v)
